@@ -1,6 +1,6 @@
 """Registry entry of property C15 (see tools/registry.py)."""
 
-# one source, eight executables (-DVF_PART=k): the exception-mode settings classes are defined in the harness itself
+# one source, nine executables (-DVF_PART=k): the exception-mode settings classes are defined in the harness itself
 # (checkMode = CheckMode::exception, extraCheckMode = nothing, checkVersion / checkKeyVersion / checkValueVersion = true)
 _PARTS = [
     (0, "hashset"),
@@ -11,6 +11,7 @@ _PARTS = [
     (4, "arrays"),
     (5, "table_static"),
     (7, "table_dynamic"),
+    (8, "tree_noversion"),
 ]
 
 PROP = {
@@ -120,6 +121,7 @@ PROP = {
         "Momo.Ver.C15_table_history_bounds_fresh",
         "Momo.Ver.C15_array_index_table",
         "Momo.Ver.C15_array_iterator_table",
+        "Momo.Ver.C15_array_nogrow_table",
         "Momo.Ver.C15_sites_accounted",
     ],
     "harnesses": [
@@ -127,7 +129,14 @@ PROP = {
          "timeout_quick": 600, "timeout_thorough": 3000}
         for (k, n) in _PARTS
     ],
-    "rule": ("15 container configurations in 8 executables, all with CheckMode::exception and version checks on: HashSet (default bucket, Open8, "
+    "rule": ("19 container configurations in 9 executables, all with CheckMode::exception; version checks on except in the 4 configurations of the "
+             "ninth executable (TreeSet default node / TreeNode<4,2>, TreeMultiSet<TreeNode<4,1>>, TreeMap<TreeNode<6,3>> with checkVersion = "
+             "false, where the null-node checks TreeSet.h:60/80/105/141 are the only guard: 7 tree states x 8 handle kinds (default-constructed "
+             "iterator, begin, end, Find, bounds, returned by Insert, advanced) x 19 uses (->, *, ++, --, CheckIterator(true / false), Add, "
+             "Add(extracted) full / empty, Remove, Remove(extracted) empty / full holder, Extract, ResetKey, six Remove(range) forms incl. a "
+             "default-constructed begin or end) + 50 (thorough 300) random histories; only the default-constructed iterator and iterators made "
+             "after the last modifying call of their own tree are used - anything else is undefined without version checks - and for these the "
+             "model `ver` answers identically, so the same operation lines are compared). The other 15: HashSet (default bucket, Open8, "
              "LimP4<2> with slow hash), HashMap (default, OpenN1), TreeSet (default node, TreeNode<4,2>), TreeMultiSet<TreeNode<4,1>>, "
              "TreeMap<TreeNode<6,3>>, HashMultiMap (default, Open8), Array (heap / internal capacity 4) with SegmentedArray (sqrt,1 / cnst,2), DataTable "
              "(static columns with row numbers, dynamic columns without; unique hash index on a, multi hash index on b). Two objects A and B per "
@@ -138,7 +147,16 @@ PROP = {
              "bounds; TryAdd, TryInsert, TryUpdate(row) and (column), Remove / Extract by reference and number, Clear, Remove(filter) with and "
              "without effect, Remove(begin,end) and Assign(begin,end) over reference vectors and over selection iterators, Reserve), arrays: every "
              "index / count around the size plus SIZE_MAX-2..SIZE_MAX, 2^63, 2^32 for operator[], Insert, Remove(index,count), RemoveBack, "
-             "GetBackItem, iterator += over [-n-2, n+2] and extreme differences, - and < across arrays, null iterators. Then random histories (60-100 "
+             "GetBackItem (each also through a const reference), AddBackNogrow / AddBackNogrowVar / AddBackNogrowCrt item by item up to the "
+             "capacity and twice beyond (after construction, Reserve, RemoveBack, Clear; capacity read from the real object and written on the "
+             "operation line), iterator += over [-n-2, n+2] and extreme differences, - and < across arrays, null iterators. Directed blocks at "
+             "property level (no model lines): extracted-item holders of HashSet / HashMap / TreeSet / TreeMap in every state (default, filled by "
+             "Create / Extract, cleared, moved-from, emptied by Remove / Insert) x every accessor const and non-const, Create on a full and Remove "
+             "on an empty holder (functor must not run); hash traits that answer bucket-count shift 0 or a new capacity <= count from a run-time "
+             "switch on (HashSet default / Open8, HashMap default / LimP4<2>; 5 table states incl. no buckets, full after 1 / 2 growths, after "
+             "Reserve, after removals): every Insert / Add(position) / Insert(extracted) / Add(position, extracted) / Insert(range) / Reserve that "
+             "must grow throws invalid_argument and leaves keys, capacity, bucket count and version as they were, calls that need no growth "
+             "succeed, and after the switch is off the position made before the refused calls is still accepted and the table grows normally. Then random histories (60-100 "
              "per configuration, 80-100 calls; thorough 400-600 x 160-200) over a pool of handles made at random earlier moments. What the model "
              "cannot know (iteration order, capacity after a growth, order inside a multi-hash group) is read from the real container and written on "
              "the operation line. Property-level oracle, independent of the model: per version cell the harness records from complete snapshots of "
